@@ -869,6 +869,17 @@ impl Server {
         Ok(has_pending_writes)
     }
     
+    /// Wake one blocked client per pushed element, in the order they blocked
+    /// (each woken client pops one element when the wake-up is processed)
+    fn notify_list_push(&self, db: usize, key: &[u8], pushed: usize) {
+        for _ in 0..pushed {
+            if !self.blocking_manager.has_blocked_clients(db, key) {
+                break;
+            }
+            self.blocking_manager.notify_key_ready(db, key);
+        }
+    }
+    
     /// True unless a password is configured and this connection has not authenticated
     fn connection_is_authorized(&self, conn_id: u64) -> bool {
         self.config.password.is_none()
@@ -1303,14 +1314,11 @@ impl Server {
             "LPUSH" => {
                 let result = crate::storage::commands::lists::handle_lpush(&self.storage, db, parts);
                 
-                // Notify blocked clients if LPUSH was successful
+                // Notify blocked clients if LPUSH was successful: one per pushed element
                 if let Ok(RespFrame::Integer(count)) = &result {
                     if *count > 0 && parts.len() >= 3 {
                         if let RespFrame::BulkString(Some(key_bytes)) = &parts[1] {
-                            if self.blocking_manager.has_blocked_clients(db, key_bytes) {
-                                // Simplified notification - no pre-computed value
-                                self.blocking_manager.notify_key_ready(db, key_bytes);
-                            }
+                            self.notify_list_push(db, key_bytes, parts.len() - 2);
                         }
                     }
                 }
@@ -1320,14 +1328,11 @@ impl Server {
             "RPUSH" => {
                 let result = crate::storage::commands::lists::handle_rpush(&self.storage, db, parts);
                 
-                // Notify blocked clients if RPUSH was successful
+                // Notify blocked clients if RPUSH was successful: one per pushed element
                 if let Ok(RespFrame::Integer(count)) = &result {
                     if *count > 0 && parts.len() >= 3 {
                         if let RespFrame::BulkString(Some(key_bytes)) = &parts[1] {
-                            if self.blocking_manager.has_blocked_clients(db, key_bytes) {
-                                // Simplified notification - no pre-computed value
-                                self.blocking_manager.notify_key_ready(db, key_bytes);
-                            }
+                            self.notify_list_push(db, key_bytes, parts.len() - 2);
                         }
                     }
                 }
